@@ -371,9 +371,8 @@ class AsmCFG(DiGraph):
         assert dst_blk is not None
         # Delete from src.bto
         to_remove = [cons for cons in src_blk.bto if cons.loc_key == dst]
-        if to_remove:
-            assert len(to_remove) == 1
-            src_blk.bto.remove(to_remove[0])
+        for cons in to_remove:
+            src_blk.bto.remove(cons)
 
         # Del edge
         del self.edges2constraint[(src, dst)]
